@@ -27,7 +27,7 @@ import sys
 claimed = sys.argv[1:]
 DEFS = {
  "C06": ("exploration",
-   "Seeded search over the two environment dimensions the statement names: (B) 16 real CPython interpreters started with distinct PYTHONHASHSEEDs and seeded simulated ModelPtr addresses must print byte-identical code for the same samples/options in both layouts - any disagreement is a violation by definition; (A) an in-process order scheduler permutes the iteration order of every volatile set (seeded, per-site streams) to nominate candidates, which are confirmed by a wide real-interpreter sweep or listed as unconfirmed. Sampling, not enumeration.",
+   "Seeded search over the environment dimensions the statement names: (B) 16 real CPython interpreters with distinct PYTHONHASHSEEDs and seeded simulated ModelPtr addresses must print byte-identical code for the same samples/options in both layouts - any disagreement is a violation by definition; (A) an in-process order scheduler permutes the iteration order of every volatile set (seeded, per-site streams) to nominate candidates, confirmed by a wide real-interpreter sweep or listed as unconfirmed; (C) the real CLI as a subprocess under 4 hash seeds per workload with samples delivered as one file, many explicit files, plain and recursive glob patterns in one fixed directory; (D) the in-process CLI at two simulated instants (clock jumps, extreme dates) may differ only in the timestamp line, and not at all at the same instant. Sampling, not enumeration.",
    "DESIGN.md 4.1",
    "Violations come only from real interpreters. Simulated addresses are assumed to be legal memory layouts. The instrumented loader rewrites set constructors only (fidelity is cross-checked against stable real outputs on every run).",
    "deterministic simulation: seeded set-iteration-order scheduler (AST seam) + PYTHONHASHSEED / simulated-address sweep over real interpreters, byte-equality oracle, ddmin attribution to iteration sites"),
@@ -42,7 +42,7 @@ DEFS = {
    "The reference model encodes my reading of the documented option meanings; option domain restricted accordingly. Sample sets/options are generated workload; the simulated dimensions are enumeration order, clock and file objects.",
    "deterministic simulation: in-process CLI behind simulated directory order / clock / file seams, differential oracle vs executable reference model of the front end, event-log based ordering check"),
  "C17": ("fault_enumeration",
-   "Systematic fault enumeration: for every base scenario (good multi-file CLI scenario whose fault-free control passes) every fault kind (missing file, dangling symlink, directory, torn/flipped/empty JSON/YAML/INI - kept only if an independent parser fails too -, wrong lookup, non-object sample, non-string keys, invalid arguments, bad framework/generator combinations, raising custom generator, crash injected at seeded line events of generation, read errors at open / mid-read) x position of the faulty file (first/middle/last, own argument / glob member) x output mode (stdout, -o absent, -o present with non-UTF-8 sentinel) is executed by the real cli.main() behind simulated seams; oracle: exit status != 0, no model code on stdout, sentinel bytes identical. Write errors check only 'exit 0 implies complete text'. Thorough tier re-runs sampled scenarios with the real CLI process.",
+   "Systematic fault enumeration: for every base scenario (good multi-file CLI scenario whose fault-free controls pass) every fault kind (missing file, dangling symlink, directory, torn/flipped/empty JSON/YAML/INI - kept only if an independent parser fails too -, wrong lookup, non-object sample, non-string keys incl. the integer-key twin of a good sample, 256/512 faulty files at once, invalid arguments, bad framework/generator combinations, raising custom generator, crash injected at seeded line events before the output file is first modified, read errors at open / mid-read) x position of the faulty file (first/middle/last, own argument / glob member) x output mode (stdout, -o absent, -o present with non-UTF-8 sentinel) is executed by the real cli.main() behind simulated seams; oracle: exit status != 0 (low 8 bits, as the OS reports it), no model code on stdout, sentinel bytes identical. Fault-free controls also run with -o pointing at the output of an earlier run (same code / old preamble / extra class) and must leave exactly header(this run) + library text; a real-process control under LC_ALL=C must succeed and write complete UTF-8. Write errors check only 'exit 0 implies complete text'. Thorough tier re-runs sampled scenarios with the real CLI process.",
    "DESIGN.md 4.6",
    "In-process exit-status emulation (SystemExit code / uncaught exception -> 1) is validated against the real process only in the thorough tier. Dynamic I/O faults rely on the CLI opening files through cli.Path.open / cli.open; state faults do not.",
    "deterministic simulation: fault enumeration (state faults in a scratch file system, interposed I/O errors, trace-based crash points) over in-process CLI runs, final-state + event-log oracle"),
@@ -52,7 +52,7 @@ DEFS = {
    "Both sides run with insertion-ordered sets, so only state carried through the process can make them differ. Inside the claimed domain the absolute-reference mapping is always empty, so an un-restored reference context is not observable here (C15 covers it).",
    "deterministic simulation: seeded history machine with trace-based crash injection, differential oracle vs pristine forked process, ddmin of the operation list"),
  "C15": ("exploration",
-   "Seeded search over thread interleavings: 1-8 independent pipelines on real threads under a baton scheduler that pre-empts at line (and, in the thread-local context code, opcode) events inside repository frames; every thread's outcome must equal the outcome of the same pipeline alone in a pristine process. A clean batch is evidence over the sampled interleavings, not proof.",
+   "Seeded search over thread interleavings: 1-8 independent pipelines on real threads under a baton scheduler that pre-empts at line events inside repository frames, with biases towards the thread-local context code, towards the first execution of every function (with a 'stalled thread' fault that keeps the pre-empted thread off the CPU), towards threads that render shared nested sub-models, share one document with option variations, share the process-global default string-type registry, or process a document nested beyond the default recursion limit; every thread's outcome must equal the outcome of the same pipeline alone in a pristine process. A clean batch is evidence over the sampled interleavings, not proof.",
    "DESIGN.md 4.4",
    "Pre-emption granularity is a source line; switches inside C calls / Jinja template bodies are not simulated. Reference runs use insertion-ordered sets (identity order) like the threaded runs.",
    "deterministic simulation: seeded baton-passing thread scheduler (sys.settrace pre-emption points), differential oracle vs pristine-process run, ddmin of the switch list"),
